@@ -66,6 +66,14 @@ func programs(quick bool) []program {
 		{"let c=[1,2,3].map(e->e*2); c.size()*0+c.append(a).append(a).size()", "constant materialised at Generate time, two appends"},
 		{"let c=[1,2,3].map(e->e*2); c.size()*0+c.append(a+10)[3]", "constant materialised at Generate time, appended concurrently, the appended element observed"},
 		{"let c=[1,2,3].map(e->e*2); c.append(a+10)[3]", "lazy constant appended concurrently, the appended element observed"},
+		{"let c=[1,2,3].append(4); c.append(a+10)[4]", "constant with spare capacity (result of append), appended concurrently, the appended element observed"},
+		{"let c=[1,2,3].append(4); c.append(a).string()", "constant with spare capacity, appended concurrently, whole result observed"},
+		{"let c=[1,2,3].append(4); c.append(a).append(a+1).string()+c.string()", "constant with spare capacity, two appends and the constant itself observed"},
+		{"let l=numbers(4).number((i,v)->(v+a)*100+i); l[0]+l.sum()", "private lazy list whose producer uses the passed stack, index access then iteration"},
+		{"let l=[1,2,3,4].combine((p,q)->p*10+q+a); l[1]+l[0]", "private lazy combine list, two index accesses"},
+		{"let l=[1,2,2,3].compact((p,q)->p=q); l[a]+l.size()", "private lazy compact list, index access"},
+		{"let l=[1,2,3].iirCombine(e->e+a,(x0,x1,y)->x0+x1+y); l[2]+l[0]", "private lazy iir list, index access"},
+		{"let l=[1,2].cross([a,5],(p,q)->p*10+q); l[3]+l[0]", "private lazy cross list, index access"},
 		{"let m={k:1}.eval(); m.put(\"x\",a).size()", "constant hash map"},
 		{"let m={k:1}.replace(m->{k:2}); m.put(\"x\",a).k", "constant replace map"},
 	}
@@ -167,85 +175,109 @@ func run(ctx *bex.Ctx) {
 					ctx.Violate("REPLAY-DIVERGENCE: the same schedule gave different observations", repro, fmt.Sprint(d1.Obs, d1.Trans), fmt.Sprint(d2.Obs, d2.Trans), "")
 					continue
 				}
-				st := vsched.Explore(vsched.Config{PreemptBound: -1, MaxExecs: maxExecs, Stop: ctx.Expired}, body)
-				ctx.Eval()
-				ctx.Add("states", int64(st.States))
-				ctx.Add("transitions", int64(st.Transitions))
-				ctx.Add("executions", int64(st.Execs))
-				ctx.Add("traces_validated_against_impl", int64(st.Execs))
-				ctx.Max("max_states_per_scenario", int64(st.States))
-				if st.Capped {
-					ctx.Add("scenarios_capped", 1)
+				// pass 0: all interleavings, pruned by history keys (sound as long as vthreads communicate only
+				// through hooked operations); pass 1: NO pruning, all schedules with at most pb preemptions —
+				// covers communication through memory the hooks do not see (backing arrays of slices)
+				pb := 3
+				if T > 2 {
+					pb = 2
 				}
-				if st.Diverged > 0 {
-					ctx.Violate("REPLAY-DIVERGENCE while replaying a prefix", repro, "", fmt.Sprint(st.Diverged), "")
+				if !ctx.Quick() {
+					pb++
 				}
-				if st.States > 50 {
-					ctx.Nontrivial(fmt.Sprint(p.Src, T, args))
-				}
-				ctx.Outcome(fmt.Sprintf("race=%v/outcomes=%d", st.RaceExecs > 0, len(st.Outcomes)))
-				if tf := os.Getenv("C11_TRACE"); tf != "" {
-					if fh, err := os.OpenFile(fmt.Sprintf("%s.%d", tf, ctx.Shard), os.O_APPEND|os.O_CREATE|os.O_WRONLY, 0644); err == nil {
-						fmt.Fprintf(fh, "race=%-5v execs=%-6d states=%-6d outcomes=%d T=%d args=%v %s => %s\n", st.RaceExecs > 0, st.Execs, st.States, len(st.Outcomes), T, args, p.Src, want)
-						fh.Close()
+				for pass, cfg := range []vsched.Config{
+					{PreemptBound: -1, MaxExecs: maxExecs, Stop: ctx.Expired},
+					{PreemptBound: pb, MaxExecs: maxExecs, NoPrune: true, Stop: ctx.Expired},
+				} {
+					rp0 := copyMap(repro)
+					rp0["pass"] = []string{"all interleavings, history-key pruning", fmt.Sprintf("no pruning, <= %d preemptions", pb)}[pass]
+					repro := rp0
+					st := vsched.Explore(cfg, body)
+					if pass == 0 {
+						ctx.Eval()
+					} else {
+						ctx.Add("executions_unpruned_pass", int64(st.Execs))
 					}
-				}
-				if ctx.WantSample() && st.States > 50 {
-					ctx.Sample(map[string]any{"scenario": repro, "note": p.Note, "isolated": want, "executions": st.Execs, "states": st.States, "transitions": st.Transitions, "distinct_outcomes": len(st.Outcomes), "racy_executions": st.RaceExecs})
-				}
-				var obs []string
-				for o := range st.Outcomes {
-					obs = append(obs, o)
-				}
-				sort.Strings(obs)
-				for _, o := range obs {
-					if o != want {
-						var choices []int
-						for _, tt := range st.Terminals {
-							if tt.Obs == o {
-								choices = tt.Choices
-								break
+					ctx.Add("states", int64(st.States))
+					ctx.Add("transitions", int64(st.Transitions))
+					ctx.Add("executions", int64(st.Execs))
+					ctx.Add("traces_validated_against_impl", int64(st.Execs))
+					ctx.Max("max_states_per_scenario", int64(st.States))
+					if st.Capped {
+						ctx.Add("scenarios_capped", 1)
+					}
+					if st.Diverged > 0 {
+						ctx.Violate("REPLAY-DIVERGENCE while replaying a prefix", repro, "", fmt.Sprint(st.Diverged), "")
+					}
+					if pass == 0 && st.States > 50 {
+						ctx.Nontrivial(fmt.Sprint(p.Src, T, args))
+					}
+					if pass == 0 {
+						ctx.Outcome(fmt.Sprintf("race=%v/outcomes=%d", st.RaceExecs > 0, len(st.Outcomes)))
+					}
+					if tf := os.Getenv("C11_TRACE"); tf != "" {
+						if fh, err := os.OpenFile(fmt.Sprintf("%s.%d", tf, ctx.Shard), os.O_APPEND|os.O_CREATE|os.O_WRONLY, 0644); err == nil {
+							fmt.Fprintf(fh, "race=%-5v execs=%-6d states=%-6d outcomes=%d T=%d args=%v %s => %s\n", st.RaceExecs > 0, st.Execs, st.States, len(st.Outcomes), T, args, p.Src, want)
+							fh.Close()
+						}
+					}
+					if pass == 0 && ctx.WantSample() && st.States > 50 {
+						ctx.Sample(map[string]any{"scenario": repro, "note": p.Note, "isolated": want, "executions": st.Execs, "states": st.States, "transitions": st.Transitions, "distinct_outcomes": len(st.Outcomes), "racy_executions": st.RaceExecs})
+					}
+					var obs []string
+					for o := range st.Outcomes {
+						obs = append(obs, o)
+					}
+					sort.Strings(obs)
+					for _, o := range obs {
+						if o != want {
+							var choices []int
+							for _, tt := range st.Terminals {
+								if tt.Obs == o {
+									choices = tt.Choices
+									break
+								}
+							}
+							rp := copyMap(repro)
+							rp["schedule"] = choices
+							finding := ""
+							if t := st.FirstRace(); t != nil {
+								finding = classifyRace(t.Race)
+							}
+							ctx.Violate("a concurrent evaluation returns an outcome different from its isolated evaluation", rp, want, o, finding)
+						}
+					}
+					{
+						byFinding := map[string][]string{}
+						sched := map[string][]int{}
+						for line, choices := range st.RaceLines() {
+							f := classifyRace(line)
+							byFinding[f] = append(byFinding[f], line)
+							if old, ok := sched[f]; !ok || len(choices) < len(old) {
+								sched[f] = choices
 							}
 						}
-						rp := copyMap(repro)
-						rp["schedule"] = choices
-						finding := ""
-						if t := st.FirstRace(); t != nil {
-							finding = classifyRace(t.Race)
-						}
-						ctx.Violate("a concurrent evaluation returns an outcome different from its isolated evaluation", rp, want, o, finding)
-					}
-				}
-				{
-					byFinding := map[string][]string{}
-					sched := map[string][]int{}
-					for line, choices := range st.RaceLines() {
-						f := classifyRace(line)
-						byFinding[f] = append(byFinding[f], line)
-						if old, ok := sched[f]; !ok || len(choices) < len(old) {
-							sched[f] = choices
+						for f, lines := range byFinding {
+							sort.Strings(lines)
+							rp := copyMap(repro)
+							rp["schedule"] = sched[f]
+							if len(lines) > 3 {
+								lines = lines[:3]
+							}
+							ctx.Violate("data race on state shared through the generated function (happens-before, vector clocks)", rp, "no conflicting accesses unordered by happens-before", strings.Join(lines, "\n"), f)
 						}
 					}
-					for f, lines := range byFinding {
-						sort.Strings(lines)
-						rp := copyMap(repro)
-						rp["schedule"] = sched[f]
-						if len(lines) > 3 {
-							lines = lines[:3]
-						}
-						ctx.Violate("data race on state shared through the generated function (happens-before, vector clocks)", rp, "no conflicting accesses unordered by happens-before", strings.Join(lines, "\n"), f)
+					if t := st.FirstDeadlock(); t != nil {
+						ctx.Violate("deadlock", repro, "all evaluations return", t.Leaks, "")
 					}
-				}
-				if t := st.FirstDeadlock(); t != nil {
-					ctx.Violate("deadlock", repro, "all evaluations return", t.Leaks, "")
-				}
-				if t := st.FirstCrash(); t != nil {
-					ctx.Violate("panic on a goroutine", repro, "no panic", t.Crash, "")
+					if t := st.FirstCrash(); t != nil {
+						ctx.Violate("panic on a goroutine", repro, "no panic", t.Crash, "")
+					}
 				}
 			}
 		}
 	}
-	ctx.SpaceDone(fmt.Sprintf("%d programs (lazy / eager / nested constants, constant maps, closures, strings, recursion, failing accesses) x T in %v concurrent evaluations x 3 argument tuples (equal and different); all interleavings at field-access granularity", len(programs(ctx.Quick())), threads))
+	ctx.SpaceDone(fmt.Sprintf("%d programs (lazy / eager / nested constants, constant maps, closures, strings, recursion, failing accesses) x T in %v concurrent evaluations x 3 argument tuples (equal and different); all interleavings at field-access granularity with history-key pruning, then again without pruning with <= 3 (T=3: 2; thorough: +1) preemptions", len(programs(ctx.Quick())), threads))
 }
 
 func copyMap(m map[string]any) map[string]any {
